@@ -292,6 +292,7 @@ type msWorld struct {
 	sigs   map[int][]byte  // valid signature of h per key
 	verify map[string]bool // cache of real Verify results
 	nver   int
+	sampled int
 }
 
 func newWorld(t *testing.T, r *rand.Rand) *msWorld {
@@ -602,7 +603,8 @@ func (w *msWorld) oneCase(t *testing.T, res *vh.Result, tr *vh.Trace, r *rand.Ra
 		if exp {
 			res.Inc("ms_accepting_cases", 1)
 		}
-		if res.Traces%400 == 0 {
+		if (exp && len(o.Sched) >= 4 && w.sampled&1 == 0) || (!exp && len(o.Sched) >= 4 && w.sampled&2 == 0 && w.sampled&1 == 1) {
+			w.sampled |= map[bool]int{true: 1, false: 2}[exp]
 			res.Sample(map[string]any{"part": "multisig", "src": src, "n": n, "m": m, "V": real, "key_labels": labels,
 				"delivery_order": o.Sched, "answer": o.Answer, "returned": o.Returned, "ordered_match": exp})
 		}
